@@ -83,8 +83,9 @@ static std::string witness(const World &w, size_t pi, const std::string &op, con
 static void check_state(World &w, size_t pi, const std::string &opkind, const std::string &op, const std::string &arg) {
 	Player &P = w.pl[pi]; if (P.tainted) return;
 	Z mh; model_h(w, pi, mh); w.checks++;
-	if (mpz_cmp(mh, P.v->h)) violation("C08/" + w.cls + "/h-mismatch-after-" + opkind, "common key differs from h_own * product of the accepted contributions", witness(w, pi, op, arg));
-	if (P.v->KeyGenerationProtocol_NumberOfKeys() != P.A.size()) violation("C08/" + w.cls + "/number-of-keys-after-" + opkind, "NumberOfKeys differs from the size of the accepted set", witness(w, pi, op, arg));
+	// after a state mismatch the instance is not judged any further (one key per first failure, no cascades)
+	if (mpz_cmp(mh, P.v->h)) { violation("C08/" + w.cls + "/h-mismatch-after-" + opkind, "common key differs from h_own * product of the accepted contributions", witness(w, pi, op, arg)); P.tainted = true; }
+	if (P.v->KeyGenerationProtocol_NumberOfKeys() != P.A.size()) { violation("C08/" + w.cls + "/number-of-keys-after-" + opkind, "NumberOfKeys differs from the size of the accepted set", witness(w, pi, op, arg)); P.tainted = true; }
 }
 // ex: accept | refuse | either | dup | fin | mask  (what the reference model expects of this operation)
 static void rec_op(World &w, size_t pi, const char *op, long long src, const std::string &ex, int ret, const std::string &detail) {
